@@ -218,7 +218,7 @@ struct Gen<'a> {
 
 const GOOD_KEYS: [&str; 10] = ["k", "key", "action", "a_b", "x", "\u{e9}", " x ", "xy", "ab ", "\u{200b}"];
 const BAD_KEYS: [&str; 8] = ["", " ", "\t\n", "_", "_x", " _x", "\u{a0}", "_contract_address"];
-const GOOD_TYPES: [&str; 7] = ["ab", "xy", "\u{e9}", " ab ", "transfer", "wasm", "a b"];
+const GOOD_TYPES: [&str; 10] = ["ab", "xy", "\u{e9}", " ab ", "transfer", "wasm", "a b", "wasm-ab", "wasm-", "execute"];
 const BAD_TYPES: [&str; 6] = ["", "a", " a ", "\u{a0}a", "  ", "\t"];
 const IDS: [u64; 6] = [0, 1, 2, 7, u64::MAX, 1];
 const KEY_POOL: [&[u8]; 10] = [b"", b"\x00", b"a", b"a\x00", b"ab", b"b", b"\xff", b"\xff\xff", b"k1", b"contract_data/"];
@@ -242,9 +242,9 @@ impl<'a> Gen<'a> {
         let r = self.rng.below(100);
         if r < 65 && self.n_live > 0 {
             Target::Contract(self.rng.below(self.n_live as u64) as u32)
-        } else if r < 85 && self.n_slots > 0 {
+        } else if r < 80 && self.n_slots > 0 {
             Target::Contract(self.rng.below(self.n_slots as u64) as u32)
-        } else if r < 90 {
+        } else if r < 91 {
             Target::SelfAddr
         } else if r < 94 {
             Target::Account(self.rng.below(self.n_accounts as u64) as u32)
@@ -381,7 +381,12 @@ impl<'a> Gen<'a> {
                 } else {
                     let start = if self.rng.chance(1, 2) { None } else { Some(self.rng.pick(&KEY_POOL).to_vec()) };
                     let end = if self.rng.chance(1, 2) { None } else { Some(self.rng.pick(&KEY_POOL).to_vec()) };
-                    ReadOp::Range { start, end, desc: self.rng.chance(1, 2) }
+                    let desc = self.rng.chance(1, 2);
+                    match self.rng.below(4) {
+                        0 => ReadOp::Keys { start, end, desc },
+                        1 => ReadOp::Values { start, end, desc },
+                        _ => ReadOp::Range { start, end, desc },
+                    }
                 };
                 n.reads.push(r);
             }
